@@ -250,6 +250,12 @@ func checkC06(c *Ctx) Meta {
 			c.Bad("C06-KEEPER", key, c.Pos(f.Pos()), "a new plot is not named from the (ordinal, key) pair of one issuance")
 		}
 	}
+	// the lock discipline of the wallet (C14) is a premise of "concurrent requests get distinct keys and
+	// a later lookup finds them": run under this property's name
+	c.pushAlias("C14-", "C06-LOCK-")
+	checkC14(c)
+	c.popAlias()
+
 	return Meta{
 		Explanation: "Structural conditions for once-only issuance with stable ordinals: the read-modify-write of the child counter under the address-manager lock with unit steps, persistence of each key under its own (branch, index), identity of the returned ordinal with the persisted index of the returned key, the manager lock and the single transaction around issuance, and the keeper naming new plots from one issuance.",
 		NotDecided:  "uniqueness across restarts as a value fact (follows from these rules + C02's loader rules + leveldb durability); behaviour under concurrent callers beyond lock discipline.",
@@ -441,9 +447,9 @@ func checkC05(c *Ctx) Meta {
 	c.Rule("C05-ERASE", "locking leaves no usable key behind: the eraser zeroes every private-hierarchy field any function fills and drops the pointers other code tests for nil (the C03 eraser rule, here as the premise of 'requests while locked fail' and of re-derivation after the next unlock)", 7)
 	c.Rule("C05-TXRUN", "a key that is handed out was committed: db.Update returns the error of BeginTx, of the body and of Commit on every path and reports success only after tx.Commit — otherwise the key signs now and is unknown after a restart", 5)
 	checkTxRunner(c, "C05-TXRUN")
-	c.aliasFrom, c.aliasTo = "C03-ERASE", "C05-ERASE"
+	c.pushAlias("C03-ERASE", "C05-ERASE")
 	checkEraser(c)
-	c.aliasFrom, c.aliasTo = "", ""
+	c.popAlias()
 	checkUnlockAllOrNothing(c, "C05-LOCKSTATE")
 	checkParsedKeyWidth(c, "C05-BIND")
 	if f := c.MustFn("C05-LOCKSTATE", "poc/wallet/keystore", "(*KeystoreManagerForPoC).Lock"); f != nil {
@@ -652,6 +658,12 @@ func checkC05(c *Ctx) Meta {
 			c.Bad("C05-KEEPER", key, c.Pos(f.Pos()), "the keeper does not sign the given hash with the key of the workspace named by the space id")
 		}
 	}
+	// the lock discipline of the wallet (C14) is a premise of "a key generated while locked signs after
+	// the next unlock" (issuance and unlock are each one critical section): run under this property's name
+	c.pushAlias("C14-", "C05-LOCKS-")
+	checkC14(c)
+	c.popAlias()
+
 	return Meta{
 		Explanation: "Binding rules: which key a signing request is looked up under, which digest is signed, that the cached private key of an address is re-derived from that address's own branch and index (with the external/internal polarity checked on the branch-selection phi), the unlocked / key-present / known-key gates, and the keeper's choice of key.",
 		NotDecided:  "the curve arithmetic; equality of public-side and private-side derivation (C18's undecided part).",
